@@ -41,8 +41,18 @@ def skip():
     return True
 
 
-def note(*a):
-    NOTES.append(' '.join(str(x) for x in a))
+SYMBOLIC = False     # set by the shard runner: notes are dropped, nothing symbolic is ever formatted
+
+
+def note(fmt, *args):
+    """Leave a remark for the replay report.  Formatting is lazy (``fmt % args``) and happens only on
+    concrete runs, so symbolic values are never rendered to text under CrossHair."""
+    if SYMBOLIC:
+        return
+    try:
+        NOTES.append((fmt % args) if args else str(fmt))
+    except Exception:  # noqa
+        NOTES.append(' '.join([str(fmt)] + [repr(x) for x in args]))
 
 
 # ---------------------------------------------------------------------------------------
